@@ -62,6 +62,7 @@ struct UpdF {
     template <class V, class Q> void operator()(bool bNew, V& item, Q const&) const { ++r->calls; r->inserted = bNew; r->inst = inst_of(item); }
     template <class V> void operator()(bool bNew, V& item) const { ++r->calls; r->inserted = bNew; r->inst = inst_of(item); }
     template <class V> void operator()(V& cur, V* old) const { ++r->calls; r->inserted = (old == nullptr); r->inst = old ? inst_of(*old) : inst_of(cur); }
+    template <class V> void operator()(V& cur, std::nullptr_t) const { ++r->calls; r->inserted = true; r->inst = inst_of(cur); }
 };
 struct FindF {
     R* r;
@@ -183,6 +184,7 @@ struct MapA {
         R* r; long inst;
         template <class V> void operator()(bool bNew, V& item) const { ++r->calls; r->inserted = bNew; if (bNew) item.second = inst; r->inst = inst_of(item); }
         template <class V> void operator()(V& cur, V* old) const { ++r->calls; r->inserted = (old == nullptr); cur.second = inst; r->inst = old ? inst_of(*old) : inst; }
+        template <class V> void operator()(V& cur, std::nullptr_t) const { ++r->calls; r->inserted = true; cur.second = inst; r->inst = inst; }
     };
     R update(long key, long inst, bool allow) { R r; std::pair<bool, bool> p = s->update(key, MapUpd{&r, inst}, allow); r.ok = p.first; r.inserted = p.second; if ((r.ok && r.calls > 1) || (!r.ok && r.calls)) r.calls = -100; return r; }
     R extract(long key) { return extract_(key, has<EXTRACT>()); }
